@@ -1,4 +1,5 @@
 import FalconModel.WsPayload
+import FalconModel.WsAcceptIO
 open Ws (S Exc Fault CodeArg Catch RecvKind)
 open Wp
 
@@ -10,6 +11,7 @@ open Wp
 
     step = <op>:<catch 0|1|2>:<disc -|int>
     op   = A<headers><subprotocol><badsub> | C(n|x|<int>)[+] | St<hex> | Sb<hex> | Smt<doc> | Smb<doc> | Rt | Rd | Rm |
+           Ag<sub>~<hdrs> (accept with concrete arguments: WsAcceptIO.lean) | Kt | Kd | Km (a receive_* that parked and was cancelled) |
            H<status> | T<status> | X | B | E<class>  (class = ona|pte|vei|veo|ose|ae|wsdn|wsd<code>: raised by the script itself)
     <hex> = the payload in hex (`-` = empty); a text payload is the hex of its UTF-8 encoding
     <doc> = `!` (an object the JSON encoder rejects) or the hex of the UTF-8 JSON text of the document
@@ -55,13 +57,15 @@ def parseExc (r : List Char) : Option Exc :=
   | ['v', 'e', 'o'] => some .valueOther
   | ['o', 's', 'e'] => some .osErr
   | ['a', 'e'] => some .assertion
+  | ['p', 'y'] => some .pyErr
   | ['w', 's', 'd', 'n'] => some (Ws.wsd none)
   | 'w' :: 's' :: 'd' :: r => (String.ofList r).toInt?.map fun c => Ws.wsd (some c)
   | _ => none
 
 def parseOp (s : String) : Option (Op JDoc) :=
   match s.toList with
-  | ['A', h, p, b] => some (.accept (b01 h) (b01 p) (b01 b))
+  | ['A', h, p, b] => some (.accept (b01 h) (b01 p) (b01 b) none)
+  | 'A' :: 'g' :: r => (Wa.parseAcceptTok ('g' :: r)).map fun (sub, a) => .accept a.truthy sub.present sub.bad (Wa.headerExc a)
   | ['C', 'n'] => some (.close .none false)
   | ['C', 'n', '+'] => some (.close .none true)
   | ['C', 'x'] => some (.close .notInt false)
@@ -76,6 +80,9 @@ def parseOp (s : String) : Option (Op JDoc) :=
   | ['R', 't'] => some (.recv .text)
   | ['R', 'd'] => some (.recv .data)
   | ['R', 'm'] => some (.recv .media)
+  | ['K', 't'] => some (.recvAbandoned .text)
+  | ['K', 'd'] => some (.recvAbandoned .data)
+  | ['K', 'm'] => some (.recvAbandoned .media)
   | 'H' :: r => (String.ofList r).toInt?.map .raiseHttp
   | 'T' :: r => (String.ofList r).toInt?.map .raiseStatus
   | ['X'] => some .raiseExc
